@@ -173,7 +173,9 @@ impl Transform {
         // Check if the program is runnable, fail fast if it is not.
         // The probe must not inherit our standard streams: a program like `cat` would
         // consume the list of input paths given with `--stdin` and write to the report.
-        match Command::new(&program)
+        // It must be the command as given, not only its base name: the base name may exist
+        // on the PATH while the given path does not (or the other way round).
+        match Command::new(parsed.first().unwrap())
             .stdin(Stdio::null())
             .stdout(Stdio::null())
             .stderr(Stdio::null())
